@@ -1,15 +1,37 @@
 """C09 - a terminal event stops the integration exactly at the event (scenario runner shared with C07)."""
-import p_c07
+import p_c07, evloopsim
 
 ID = "C09"
 LEAN_TARGETS = ["DVP.Properties.C09"]
 PROPERTY_FILES = ["DVP/Properties/C09.lean"]
-RULE = p_c07.RULE + " Focus: mixes of terminal and non-terminal events; stop time, last state, nothing beyond, status, dense output order, continuation to the requested end."
+RULE = p_c07.RULE + " Focus: mixes of terminal and non-terminal events; stop time, last state, nothing beyond, status, dense output order, continuation to the requested end.  Whole calls with events (operation sequences: terminal stops, continuation, faults, resets) are replayed through the Lean model DV.LoopEv."
 ASSUMPTIONS = p_c07.ASSUMPTIONS
 
 
 def run(ctx):
     p_c07.run_focus(ctx, "C09", 50, 500)
+    event_loop_block(ctx, 30, 300)
+
+
+def event_loop_block(ctx, n_quick, n_thorough):
+    """whole `integrate(t, events=...)` calls against the Lean model `DV.LoopEv` (roll-back of the event step, nested integrate(root),
+    status, `dt` after the stop, continuation calls), plus the C09 clauses that are visible on the time grid"""
+    scs = evloopsim.run_block(ctx, "C09", n_quick, n_thorough)
+    for sc in scs:
+        for op, rec in zip(sc.ops, sc.records):
+            if op[0] != "evint" or rec["status"] != 2:
+                continue
+            inp = dict(kind="event-loop", method=sc.method.__name__, dense=sc.dense, ops=str(sc.ops)[:600], op=str(op)[:300])
+            evs = rec["evs"]
+            mine = [(next(i for i, g in enumerate(evs) if g is f), te) for (f, te) in rec["events"][rec["n_events_before"]:]]
+            term = [(i, te) for (i, te) in mine if evs[i].is_terminal]
+            ctx.oracle("stop-is-last-terminal-event", bool(term) and abs(rec["t"][-1] - term[-1][1]) <= 1e-12, dict(inp, last_time=rec["t"][-1], terminal_events=term),
+                       what="status 2 but the last recorded time %r is not the time of the last terminal event recorded by this call %s" % (rec["t"][-1], term[-1:] or None))
+            d = 1.0 if len(rec["t"]) < 2 or rec["t"][-1] >= rec["t"][-2] else -1.0
+            ctx.oracle("nothing-recorded-beyond-the-stop", all((rec["t"][-1] - x) * d >= 0 for x in rec["t"][-3:]) and all((rec["t"][-1] - te) * d >= -1e-9 for (_, te) in mine),
+                       dict(inp, tail=rec["t"][-3:], events=mine[-4:]), what="samples or events beyond the stop")
+            ctx.oracle("terminated-run-is-a-success", rec["success"] and rec.get("exc") is None, dict(inp, success=rec["success"], exc=rec.get("exc")),
+                       what="terminated by event but success=%r, exception %r" % (rec["success"], rec.get("exc")))
 
 
 def search(ctx, broken):
